@@ -430,7 +430,7 @@ Proof. intros. apply strval_quoted. eapply string_tokens_quoted_lemma; eauto. Qe
 (* ================================================================== 4. _tokensupto2 (Upto.v, C04's model)
    the two facts C01 needs: the run and the rest partition the generator's tokens, the start
    token heads the run.  (C04 proves the strong statements in UptoFacts.v.)                       *)
-Lemma upto_loop_partition md : forall c ts run rest,
+Lemma c01_upto_loop_partition md : forall c ts run rest,
   upto_loop md c ts = (run, rest) -> run ++ rest = ts.
 Proof.
   intros c ts; revert c. induction ts as [|t r IH]; intros c run rest H; cbn [upto_loop] in H.
@@ -441,11 +441,11 @@ Proof.
     cbn [app]. f_equal. eapply IH; eauto.
 Qed.
 
-Lemma upto_start_partition fl t r run rest :
+Lemma c01_upto_start_partition fl t r run rest :
   upto fl (Some t) r = (run, rest) -> exists run', run = t :: run' /\ run' ++ rest = r.
 Proof.
   unfold upto, upto_md. destruct (upto_loop _ _ r) as [run' rest'] eqn:E. intros H. injection H as <- <-.
-  exists run'. split; [reflexivity|]. eapply upto_loop_partition; eauto.
+  exists run'. split; [reflexivity|]. eapply c01_upto_loop_partition; eauto.
 Qed.
 
 (* ================================================================== 5. the @charset handler *)
@@ -530,7 +530,7 @@ Section ParseFacts.
     { injection H as <-. intros st t r _ _. unfold default_atkeyword.
       destruct (negb (expects_eof st)).
       - destruct (upto FDefault (Some t) r) as [run rest] eqn:E.
-        apply upto_start_partition in E as (run' & -> & <-). eauto.
+        apply c01_upto_start_partition in E as (run' & -> & <-). eauto.
       - exists (flag st), r, []. split; reflexivity. }
     destruct (eqs name (s "COMMENT")).
     { injection H as <-. intros st t r _ _. unfold default_comment. cbn [negb]. rewrite andb_false_r.
@@ -584,7 +584,7 @@ Section ParseFacts.
   Proof.
     intros st t r Ht Hr. unfold charsetrule.
     destruct (upto FDefault (Some t) r) as [run rest] eqn:E.
-    apply upto_start_partition in E as (run' & -> & <-).
+    apply c01_upto_start_partition in E as (run' & -> & <-).
     apply Forall_app in Hr as [Hrun _].
     destruct (charset_rule_total_lemma (t :: run')) as [res Hres]; [constructor; assumption|].
     fold charset_rule. rewrite Hres. cbn [bind]. eauto.
@@ -651,3 +651,42 @@ Example string_token_example :
   = Some [(s "IDENT", s "a"); (s "CHAR", s "{"); (s "IDENT", s "b"); (s "CHAR", s ":");
           (s "STRING", [34; 120; 34; 34]%N); (s "EOF", [])].
 Proof. vm_compute. reflexivity. Qed.
+
+(* ================================================================== 8. the number of tokens is linear
+   (what IS provable about the time clause on the model: the tokenizer loop runs at most once
+   per character, so at most length text + 2 tokens -- the +2: the EOF token and a zero-width BOM) *)
+Lemma loop_count fuel : forall dc fs prev rest l c toks,
+  loop fuel dc fs prev rest l c = Some toks -> length toks <= length rest + 1.
+Proof.
+  induction fuel as [|fu IH]; intros dc fs prev rest l c toks H.
+  - destruct rest; [|discriminate]. cbn [loop] in H. injection H as <-. destruct fs; cbn; lia.
+  - destruct rest as [|ch rest1].
+    { cbn [loop] in H. injection H as <-. destruct fs; cbn; lia. }
+    cbn [loop] in H. destruct (mem ch fastchars).
+    + destruct (loop fu dc fs (Some ch) rest1 l (c + 1)) as [ts|] eqn:E; [|discriminate].
+      cbn [option_map] in H. injection H as <-. apply IH in E. cbn [length]. lia.
+    + destruct (try_prods productions dc fs prev (ch :: rest1)) as [[name found pu]|] eqn:E; [|discriminate].
+      destruct pu.
+      * destruct (finish_token name found (skipn (length found) (ch :: rest1))) as [[name' found'] value] eqn:Ef.
+        destruct (upd_pos l c found') as [l' c'].
+        destruct (loop fu dc fs (last_opt prev found') (skipn (length found') (ch :: rest1)) l' c') as [ts|] eqn:El;
+          [|discriminate].
+        cbn [option_map] in H. injection H as <-.
+        apply try_prods_shape in E as [Hs _]; [|discriminate|apply prods_nonnullable]. specialize (Hs eq_refl).
+        pose proof (finish_token_shape _ _ _ _ _ _ _ Hs Ef) as Hs'.
+        assert (Hne : ch :: rest1 <> []) by discriminate.
+        pose proof (fshape_progress _ _ _ Hne Hs') as Hp. apply IH in El.
+        match goal with |- context[if ?b then _ else _] => destruct b end; cbn [length] in *; lia.
+      * injection H as <-. destruct fs; cbn [length]; lia.
+Qed.
+
+Theorem tokenize_token_count_lemma : forall dc fs text toks,
+  tokenize dc fs text = Some toks -> length toks <= length text + 2.
+Proof.
+  intros dc fs text toks H.
+  apply tokenize_split in H as (bom & cs & rest1 & prev1 & c1 & ts & -> & Hb & Ht & _ & Hcs & Hl).
+  apply loop_count in Hl. rewrite Ht, !app_length.
+  assert (Hbl : length bom <= 1) by (destruct Hb as [->|(b & -> & _)]; cbn; lia).
+  assert (Hcl : length cs <= length (concat (map raw cs))) by (destruct Hcs as [[-> _]|[-> _]]; cbn; lia).
+  lia.
+Qed.
